@@ -21,6 +21,7 @@ META = {
                    "block moves, Multiply, Divide, doOperation, copy and the public SetIndex (caller contract)",
     "assumptions": ["index + small constant does not overflow 32 bits"],
 }
+META["explanation"] += " " + '(INV-above) a clearing loop that precedes `index_ = E` clears every word above E (E-ZONE state at the assignment: a proof of loop bound >= E + 1 is a violation). (SB-clearabove) every non-constructor caller of a doOperation kind that sets index_ = 0 (Set, And; the kind is read from the explicit template argument the exporter records) clears the words above the new index_ afterwards. (SB-normalise) the members that can zero high words (Subtract, Multiply, Divide, ShiftRight) lower index_ under a zero test of a storage word.'
 
 B = "Qentem::BigInt::"
 NOT_DECIDED = {
@@ -48,6 +49,7 @@ def run(ctx):
     for f in fns:
         table[f.q + "/%d" % len(f.params)] = Contract(buffers={"f:storage_": "g:this|MaxIndex()+1"}, invariants=[("f:index_", "g:this|MaxIndex()", 0)])
     ct = ContractTable(table)
+    zone_ct = ct
     skipped = set()
     for f in fns:
         if f.name in NOT_DECIDED or f.name.startswith("operator") and f.name in ("operator=",):
@@ -200,4 +202,183 @@ def run(ctx):
                             bad.append("%s outside the 64-bit branch" % nm)
             r.ob(f.q, name, not bad, "builtin/operand width pairs: %s" % (bad or "consistent"), "Include/Platform.hpp:%d" % f.line)
     rules.append(r)
+    rules.append(rule_clear_above(ctx, m, zone_ct))
+    rules.append(rule_lowering_callers(ctx, m))
+    rules.append(rule_normalise(ctx, m))
     return rules
+
+
+
+def rule_clear_above(ctx, m, ct):
+    """INV-above (clearing reaches the new top): the words above index_ are zero (the class invariant every operation relies on
+    when it grows the number again).  A member that lowers index_ with a clearing loop
+          while (X > Y) { storage_[X] = 0; --X; }        -- clears the words (Y, X0]   (with >= : [Y, X0])
+    and then sets  index_ = E  has to have cleared every word above E, i.e.  Y <= E  (Y <= E + 1 for >=).  E-ZONE state at the
+    assignment: a proof of Y >= E + 1 (resp. E + 2) is a violation -- word E + 1 keeps its old content; a proof of the
+    requirement discharges; anything else is listed as not decided."""
+    from qlib import dataflow
+    from qlib.zone import Zone, Lin
+    r = Rule("INV-above", "a clearing loop that precedes `index_ = E` clears every word above E", floor=1)
+    for f in m.functions:
+        if f.inst or not f.cfg or f.cls != "Qentem::BigInt":
+            continue
+        loops = []
+        for w in astq.nodes_of(f, "WhileStmt"):
+            cond = f.nodes[w].get("cond", -1)
+            body = f.nodes[w].get("body", -1)
+            if cond is None or cond < 0 or body is None or body < 0:
+                continue
+            cn = f.nodes[f.strip(cond)]
+            if cn["k"] != "BinaryOperator" or cn["op"] not in (">", ">="):
+                continue
+            X = f.text(cn["ch"][0])
+            zero = any(f.nodes[y]["k"] == "BinaryOperator" and f.nodes[y]["op"] == "=" and f.text(f.nodes[y]["ch"][0]).replace("this.", "") in ("storage_[%s]" % X.replace("this.", ""),) and
+                       f.const_value(f.nodes[y]["ch"][1]) == 0 for y in f.walk(body))
+            dec = any(f.nodes[y]["k"] == "UnaryOperator" and f.nodes[y]["op"] == "--" and f.text(f.nodes[y]["ch"][0]) == X for y in f.walk(body))
+            if zero and dec:
+                loops.append((w, cn["op"], cn["ch"][0], cn["ch"][1]))
+        if not loops:
+            continue
+        # assignments index_ = E after the loop (source order)
+        for (w, op, xn, yn) in loops:
+            assigns = [x for x in f.walk() if x > w and x not in set(f.walk(w)) and f.nodes[x]["k"] == "BinaryOperator" and f.nodes[x]["op"] == "=" and
+                       f.text(f.nodes[x]["ch"][0]).replace("this.", "") == "index_"]
+            if not assigns:
+                # the loop itself leaves index_ (or a local compared with index_) at the new top: cleared (index_, old] by construction
+                if "index_" in f.text(yn) or "index_" in f.text(xn):
+                    ctx.note_fn(f)
+                    r.ob(f.sig, "while (%s %s %s) clear" % (f.text(xn), op, f.text(yn)), True, "the loop runs down to index_ itself: every word above it is cleared", f.loc(w))
+                continue
+            a = assigns[0]
+            ctx.note_fn(f)
+            z = Zone(m, f, ct)
+            states = dataflow.run(f, z)
+            bid = dataflow.block_of(f, a)
+            verdict, why = None, "the relation between `%s` and `%s` at the assignment is outside the difference-bound domain" % (f.text(yn), f.text(f.nodes[a]["ch"][1]))
+            if bid is not None and bid in states:
+                st = z.copy(states[bid])
+                for e in f.blocks()[bid]["el"]:
+                    if e.get("n") == a:
+                        break
+                    z.transfer(f, st, e, f.blocks()[bid])
+                Y = z.lin(st, yn)
+                E = z.lin(st, f.nodes[a]["ch"][1])
+                if Y is not None and E is not None and not st.bottom:
+                    slack = 0 if op == ">" else 1            # requirement: Y <= E + slack
+                    if st.lin_le0((Y - E).shift(-slack)):
+                        verdict, why = True, "Y <= E%s is proven at the assignment: every word above the new top was cleared" % ("" if slack == 0 else " + 1")
+                    elif st.lin_le0((E - Y).shift(slack + 1)):
+                        verdict = False
+                        why = "at `%s` the engine proves %s >= %s + %d: the loop stops clearing at word %s%s, so word %s + 1 keeps its old content above the new top" % (
+                            f.text(a), f.text(yn), f.text(f.nodes[a]["ch"][1]), slack + 1, f.text(yn), " + 1" if op == ">" else "", f.text(f.nodes[a]["ch"][1]))
+            if verdict is None:
+                r.notes.append("%s: %s" % (f.sig, why))
+                continue
+            r.ob(f.sig, "while (%s %s %s) clear; %s" % (f.text(xn), op, f.text(yn), f.text(a)), verdict, why, f.loc(w))
+    return r
+
+
+def rule_lowering_callers(ctx, m):
+    """SB-clearabove: doOperation<K>(number) sets index_ = 0 for the kinds K that replace or mask the value (Set, And) and leaves
+    the higher words to its caller.  Sibling cross-check of the callers: every member that calls doOperation with such a kind,
+    other than a constructor (fresh storage is zero), saves the old index_ and clears the words above the new one afterwards
+    (operator=(number) does; a caller that does not leaves stale high words: x &= 0x0F keeps word 2)."""
+    r = Rule("SB-clearabove", "callers of the index-lowering word operations (Set, And) clear the words above the new index_", floor=2)
+    does = [f for f in m.functions if not f.inst and f.cfg and f.cls == "Qentem::BigInt" and f.name.split("<")[0] == "doOperation"]
+    if not does:
+        r.broke("BigInt::doOperation not found")
+        return r
+    # kinds whose arm assigns index_ = 0 (a literal)
+    lowering = set()
+    for f in does:
+        for sw in astq.nodes_of(f, "SwitchStmt"):
+            for labels, stmts in astq.switch_arms(f, sw):
+                names = [(l[0] or "").split("::")[-1] for l in labels] or ["default"]
+                assigns_zero = any(f.nodes[y]["k"] == "BinaryOperator" and f.nodes[y]["op"] == "=" and f.text(f.nodes[y]["ch"][0]).replace("this.", "") == "index_" and
+                                   f.const_value(f.nodes[y]["ch"][1]) == 0 for s_ in stmts for y in f.walk(s_))
+                if assigns_zero:
+                    for nm in names:
+                        lowering.add("Set" if nm in ("default", "") else nm)
+    if not lowering:
+        r.broke("doOperation: no arm assigns index_ = 0")
+        return r
+    r.notes.append("index-lowering kinds found in doOperation: %s" % sorted(lowering))
+    for f in m.functions:
+        if f.inst or not f.cfg or f.cls != "Qentem::BigInt":
+            continue
+        for c in astq.calls(f):
+            if f.call_simple_name(c) != "doOperation":
+                continue
+            callee = f.nodes[f.strip(f.nodes[c]["ch"][0])] if f.nodes[c].get("ch") else {}
+            targs = " ".join(callee.get("targs", []))      # explicit template arguments of the call: doOperation<BigIntOperation::And>
+            t = "doOperation<%s>(%s)" % (targs, ", ".join(f.text(a) for a in f.call_args(c)))
+            kinds = [k for k in lowering if targs.endswith("::" + k) or targs == k]
+            if not kinds:
+                continue
+            ctx.note_fn(f)
+            is_ctor = f.name.split("<")[0] == "BigInt"
+            if is_ctor:
+                r.ob(f.sig, t[:60], True, "constructor: the storage is zero-initialised", f.loc(c), nontrivial=False)
+                continue
+            clears = False
+            for w in astq.nodes_of(f, "WhileStmt"):
+                if w < c:
+                    continue
+                cond = f.nodes[w].get("cond", -1)
+                body = f.nodes[w].get("body", -1)
+                if cond is None or cond < 0 or "index_" not in f.text(cond):
+                    continue
+                if any(f.nodes[y]["k"] == "BinaryOperator" and f.nodes[y]["op"] == "=" and "storage_[" in f.text(f.nodes[y]["ch"][0]) and f.const_value(f.nodes[y]["ch"][1]) == 0 for y in f.walk(body)):
+                    clears = True
+            r.ob(f.sig, t[:60], clears, "the words above the new index_ are cleared after the call" if clears else
+                 "the operation sets index_ = 0 and nothing clears the words above it: the object keeps high words of its previous value (x &= 0x0F leaves word 2), which the next growing operation takes for part of the number", f.loc(c))
+    return r
+
+
+
+def rule_normalise(ctx, m):
+    """SB-normalise: index_ names the highest non-zero word (0 for zero); IsZero / IsBig / the comparisons with a word read index_
+    only.  The members that can make high words zero -- they subtract from, multiply, divide, shift right or mask words of
+    storage_ -- therefore bring index_ down afterwards: each of them contains a decrement (or a conditional adjustment) of
+    index_ that depends on a test of a storage word against zero, or ends in Clear().  Sibling cross-check: the member without
+    one leaves index_ above a zero top word (x *= 0 then reports NotZero)."""
+    r = Rule("SB-normalise", "members that can zero the top words of a BigInt bring index_ down to the highest non-zero word", floor=4)
+    SHRINK = ("Subtract", "Multiply", "Divide", "ShiftRight")
+    for f in m.functions:
+        if f.inst or not f.cfg or f.cls != "Qentem::BigInt" or f.name.split("<")[0] not in SHRINK:
+            continue
+        ctx.note_fn(f)
+        norm = None
+        for x in f.walk():
+            n = f.nodes[x]
+            # --index_ / index_ -= e / index_ = e
+            lowers = (n["k"] == "UnaryOperator" and n["op"] == "--" and f.text(n["ch"][0]).replace("this.", "") == "index_") or \
+                (n["k"] in ("CompoundAssignOperator",) and n["op"] == "-=" and f.text(n["ch"][0]).replace("this.", "") == "index_") or \
+                (n["k"] == "BinaryOperator" and n["op"] == "=" and f.text(n["ch"][0]).replace("this.", "") == "index_")
+            if not lowers:
+                continue
+            # depends on a zero test of a storage word: an enclosing condition, or the assigned expression itself
+            deps = [f.text(n["ch"][1])] if n["k"] != "UnaryOperator" and len(n.get("ch", [])) > 1 else []
+            up = f.parents().get(x)
+            while up is not None:
+                un = f.nodes[up]
+                if un["k"] in ("WhileStmt", "IfStmt", "DoStmt", "ForStmt") and un.get("cond", -1) is not None and un.get("cond", -1) >= 0:
+                    deps.append(f.text(un["cond"]))
+                up = f.parents().get(up)
+            # locals assigned under a zero test count too (index = ...; while (storage_[index] == 0) --index; index_ = index)
+            if n["k"] == "BinaryOperator":
+                rhs = f.nodes[f.strip(n["ch"][1])]
+                if rhs["k"] == "DeclRefExpr":
+                    for w in astq.nodes_of(f, ("WhileStmt", "DoStmt")):
+                        c_ = f.nodes[w].get("cond", -1)
+                        if c_ is not None and c_ >= 0 and rhs["n"] in f.text(c_):
+                            deps.append(f.text(c_))
+            if any("storage_[" in d and ("== 0" in d or "!= 0" in d or "== Number_T" in d or "!= Number_T" in d) for d in deps):
+                norm = x
+                break
+        ends_clear = any(f.call_simple_name(c) == "Clear" for c in astq.calls(f))
+        ok = norm is not None
+        r.ob(f.sig, "index_ after %s" % f.name, ok, "index_ is lowered under a zero test of a storage word (%s)" % f.text(norm)[:40] if ok else
+             "nothing in this member lowers index_ when the words it produced are zero%s: after a result of zero IsZero() is false and NotZero() true" % (" (Clear() is only one of its paths)" if ends_clear else ""),
+             "Include/BigInt.hpp:%d" % f.line)
+    return r
